@@ -24,6 +24,7 @@ import SshuttleModel.Lemmas.MeasureWorld
 import SshuttleModel.Props.C08
 import SshuttleModel.Props.C09
 import SshuttleModel.Spec.Quiet
+import SshuttleModel.Code.Loop
 
 namespace Sshuttle.Tunnel
 open Sshuttle.Mux (Frame)
@@ -1202,5 +1203,276 @@ example :
       w.flows.map (fun f => (f.s.map (·.ok), f.dst.delivered)) := by
   intro w
   exact ⟨by decide +kernel, by decide +kernel, by decide +kernel, by decide +kernel, by decide +kernel, by decide +kernel⟩
+
+
+/-! ### The scheduler itself: one pass of `runonce` as the model makes it (`Code/Loop.lean`)
+
+`World.round` decides, like `ssnet.runonce`, which handlers get how many callbacks from what the
+handlers asked for and from what `select` reports.  The real `runonce` is compared with it on every
+pass the harness makes (state after the pass and number of callbacks). -/
+
+theorem run_append (w : World) (l1 l2 : List Step) : (w.run l1).run l2 = w.run (l1 ++ l2) := by
+  simp only [World.run, List.foldl_append]
+
+theorem roundHead_moves (e : End) (n : Nat) : ∀ st ∈ roundHead e n, LoopMove st := by
+  intro st h
+  simp only [roundHead, List.mem_cons, List.mem_map, List.mem_range] at h
+  rcases h with rfl | ⟨i, _, rfl⟩ <;> trivial
+
+theorem roundTail_moves (w : World) (e : End) (k : Nat) (sel : Sel) (ios : Nat → CbIo) :
+    ∀ st ∈ roundTail w e k sel ios, LoopMove st := by
+  intro st h
+  simp only [roundTail, List.mem_append, List.mem_replicate, List.mem_flatMap] at h
+  rcases h with ⟨_, rfl⟩ | ⟨⟨i, f⟩, _, _, rfl⟩ <;> trivial
+
+/-- **A pass of the select loop is a schedule of the loop's own moves**, whatever `select`
+reports (`sel`) and however the sockets answer (`ios`): everything proved for all schedules
+(`C01_prefix`, `C01_conservation`, the C02 ordering theorems, `C08_no_death`, the C09 gate) holds
+after every pass, and the pass never raises the measure. -/
+theorem C02_round_is_run (w : World) (e : End) (k : Nat) (sel : Sel) (ios : Nat → CbIo) :
+    ∃ steps, (∀ st ∈ steps, LoopMove st) ∧ w.round e k sel ios = w.run steps ∧
+      worldMu (w.round e k sel ios) ≤ worldMu w := by
+  refine ⟨roundHead e w.flows.length ++
+    roundTail (w.run (roundHead e w.flows.length)) e k sel ios, ?_, ?_, ?_⟩
+  · intro st h
+    rcases List.mem_append.mp h with h | h
+    · exact roundHead_moves _ _ st h
+    · exact roundTail_moves _ _ _ _ _ st h
+  · simp only [World.round, run_append]
+  · simp only [World.round, run_append]
+    apply C02_measure_monotone
+    intro st h
+    rcases List.mem_append.mp h with h | h
+    · exact roundHead_moves _ _ st h
+    · exact roundTail_moves _ _ _ _ _ st h
+
+/-- Along the loop's own moves, a run that does not lower the measure has changed nothing at any
+of its steps. -/
+theorem run_fix_all (w : World) (l : List Step) (hall : ∀ st ∈ l, LoopMove st)
+    (h : worldMu (w.run l) = worldMu w) : ∀ st ∈ l, w.step st = w := by
+  induction l with
+  | nil => intro st hst; cases hst
+  | cons a rest ih =>
+    have hd := loop_step_dec w a (hall a List.mem_cons_self)
+    have hmono := C02_measure_monotone (w.step a) rest (fun s hs => hall s (List.mem_cons_of_mem _ hs))
+    have hrun : w.run (a :: rest) = (w.step a).run rest := by simp only [World.run, List.foldl_cons]
+    rw [hrun] at h
+    rcases hd with hlt | ⟨_, heq⟩
+    · omega
+    · rw [heq] at h
+      intro st hst
+      rcases List.mem_cons.mp hst with rfl | hm
+      · exact heq
+      · exact ih (fun s hs => hall s (List.mem_cons_of_mem _ hs)) h st hm
+
+theorem run_of_fix (w : World) (l : List Step) (h : ∀ st ∈ l, w.step st = w) : w.run l = w := by
+  induction l with
+  | nil => rfl
+  | cons a rest ih =>
+    have hrun : w.run (a :: rest) = (w.step a).run rest := by simp only [World.run, List.foldl_cons]
+    rw [hrun, h a List.mem_cons_self]
+    exact ih (fun s hs => h s (List.mem_cons_of_mem _ hs))
+
+/-- Delivering the next frame changes the world whenever there is one. -/
+theorem deliver_fix_empty (w : World) (e : End) (hd : w.died = none)
+    (h : w.step (.deliver e .ok) = w) : w.inQueue e = [] := by
+  have hr := step_fix hd h
+  cases e with
+  | client =>
+    simp only [World.stepRaw] at hr
+    simp only [World.inQueue]
+    rcases deliverC_mux w with ⟨_, _, h⟩ | ⟨fr, rest, ho, hc, _⟩
+    · exact h
+    · exfalso
+      rw [hr] at hc
+      have := congrArg MuxL.out hc
+      rw [ho] at this
+      simp only at this
+      have hl := congrArg List.length this
+      simp at hl
+  | server =>
+    simp only [World.stepRaw] at hr
+    simp only [World.inQueue]
+    rcases deliverS_mux w .ok with ⟨_, _, h⟩ | ⟨fr, rest, ho, hc, _⟩
+    · exact h
+    · exfalso
+      rw [hr] at hc
+      have := congrArg MuxL.out hc
+      rw [ho] at this
+      simp only at this
+      have hl := congrArg List.length this
+      simp at hl
+
+/-- A callback step that leaves the world as it was is a callback that returned its own inputs. -/
+theorem cb_fix_callback (w : World) (e : End) (i : Nat) (io : CbIo) (hd : w.died = none)
+    (f : Flow) (p : ProxyS) (hi : w.flows[i]? = some f) (hp : handlerAt e f = some p)
+    (h : w.step (.cb e i io) = w) :
+    p.callback (w.muxAt e) (envAt e f) io = .ok p (w.muxAt e) (envAt e f) := by
+  have hr := step_fix hd h
+  cases e with
+  | client =>
+    simp only [handlerAt] at hp
+    simp only [World.stepRaw, World.cbC, hi, hp] at hr
+    simp only [World.muxAt, envAt]
+    cases hcbk : p.callback w.cm f.app io with
+    | died =>
+      rw [hcbk] at hr
+      have := congrArg World.died hr
+      simp only at this
+      rw [hd] at this; cases this
+    | ok p' m' e' =>
+      rw [hcbk] at hr
+      have h1 : m' = w.cm := by simpa using congrArg World.cm hr
+      have h2 := congrArg (fun x => x.flows[i]?) hr
+      simp only [modifyAt_getElem?, ↓reduceIte, hi, Option.map_some, Option.some.injEq] at h2
+      have h3 : p' = p := by
+        have := congrArg Flow.c h2
+        simp only [hp, Option.some.injEq] at this
+        exact this
+      have h4 : e' = f.app := by simpa using congrArg Flow.app h2
+      rw [h1, h3, h4]
+  | server =>
+    simp only [handlerAt] at hp
+    simp only [World.stepRaw, World.cbS, hi, hp] at hr
+    simp only [World.muxAt, envAt]
+    cases hcbk : p.callback w.sm f.dst io with
+    | died =>
+      rw [hcbk] at hr
+      have := congrArg World.died hr
+      simp only at this
+      rw [hd] at this; cases this
+    | ok p' m' e' =>
+      rw [hcbk] at hr
+      have h1 : m' = w.sm := by simpa using congrArg World.sm hr
+      have h2 := congrArg (fun x => x.flows[i]?) hr
+      simp only [modifyAt_getElem?, ↓reduceIte, hi, Option.map_some, Option.some.injEq] at h2
+      have h3 : p' = p := by
+        have := congrArg Flow.s h2
+        simp only [hp, Option.some.injEq] at this
+        exact this
+      have h4 : e' = f.dst := by simpa using congrArg Flow.dst h2
+      rw [h1, h3, h4]
+
+theorem mem_zip_range {α : Type} (l : List α) (i : Nat) (a : α) (h : l[i]? = some a) :
+    (i, a) ∈ (List.range l.length).zip l := by
+  obtain ⟨hlt, hget⟩ := List.getElem?_eq_some_iff.mp h
+  rw [List.mem_iff_getElem?]
+  refine ⟨i, ?_⟩
+  rw [List.getElem?_zip_eq_some]
+  exact ⟨by rw [List.getElem?_range hlt], h⟩
+
+/-- **The scheduler loses no wake-up: a pass of the select loop that does not lower the measure
+leaves nothing to do at its end.**  Take any alive world whose handlers at end `e` have had their
+callbacks (`Noticed` — what every callback establishes, `cb_noticed`) with the tunnel not paused, and
+let `runonce` make one pass in the environment as it is (`truthfulSel`: `select` reports an endpoint
+socket readable iff bytes or a close are pending, always writable; the tunnel's write file
+writable), handling the frames that have arrived (`k > 0` if any are on their way), every socket
+answering fully.  If the measure is not lower afterwards, then no frame was on its way to this end
+and EVERY handler of this end is quiet.  Contrapositive: while a frame is on its way or some
+handler has anything left to do, `select` returns at least one descriptor the handlers asked for,
+the loop makes the callback, and `worldMu` goes down — so after at most `worldMu w` passes
+(`C02_bounded_work`) both ends are at rest, and a world at rest is complete
+(`C02_quiet_complete`).  The choice of callbacks is the model's own (`Code/Loop.lean`), compared
+with the real `ssnet.runonce` on every pass of every run. -/
+theorem C02_pass_without_progress_is_quiet (w : World) (e : End) (k : Nat) (hd : w.died = none)
+    (hk : w.inQueue e ≠ [] → 0 < k)
+    (hfs : ∀ f ∈ w.flows, FlowSock f)
+    (hn : ∀ f ∈ w.flows, ∀ p, handlerAt e f = some p → Noticed p)
+    (ht : (w.muxAt e).tooFull = false)
+    (hfix : worldMu (w.roundAuto e k fullIo) = worldMu w) :
+    w.inQueue e = [] ∧ ∀ f ∈ w.flows, HQ (handlerAt e f) (envAt e f) := by
+  have hmv : ∀ st ∈ roundHead e w.flows.length ++
+      roundTail (w.run (roundHead e w.flows.length)) e k (w.truthfulSel e) (fun _ => fullIo),
+      LoopMove st := by
+    intro st h
+    rcases List.mem_append.mp h with h | h
+    · exact roundHead_moves _ _ st h
+    · exact roundTail_moves _ _ _ _ _ st h
+  have hrun : w.roundAuto e k fullIo = w.run (roundHead e w.flows.length ++
+      roundTail (w.run (roundHead e w.flows.length)) e k (w.truthfulSel e) (fun _ => fullIo)) := by
+    simp only [World.roundAuto, World.round, run_append]
+  rw [hrun] at hfix
+  have hall := run_fix_all w _ hmv hfix
+  have hw2 : w.run (roundHead e w.flows.length) = w :=
+    run_of_fix w _ (fun st hst => hall st (List.mem_append_left _ hst))
+  rw [hw2] at hall
+  have hq : w.inQueue e = [] := by
+    apply Classical.byContradiction
+    intro hne
+    have hk' := hk hne
+    have hmem : Step.deliver e .ok ∈ roundTail w e k (w.truthfulSel e) (fun _ => fullIo) := by
+      unfold roundTail
+      exact List.mem_append_left _ (List.mem_replicate.mpr ⟨by omega, rfl⟩)
+    exact hne (deliver_fix_empty w e hd (hall _ (List.mem_append_right _ hmem)))
+  refine ⟨hq, ?_⟩
+  intro f hfm
+  obtain ⟨i, hi⟩ := List.getElem?_of_mem hfm
+  intro p hp
+  apply Classical.byContradiction
+  intro hnq
+  have hse : SE p.sw (envAt e f) := by
+    obtain ⟨fs1, fs2, _, _⟩ := hfs f hfm
+    cases e with
+    | client => exact (fs1 p hp).1
+    | server => exact (fs2 p hp).1
+  have hnq' : ¬ HQ (some p) (envAt e f) := by
+    intro hh; exact hnq (hh p rfl)
+  obtain ⟨hwant, hne⟩ := C02_unquiet_handler_is_woken p (w.muxAt e) (envAt e f) (hn f hfm p hp) hse ht hnq'
+  have hcnt : 0 < cbCount w e k (w.truthfulSel e) i f := by
+    simp only [cbCount, hp]
+    rcases hwant with h | h | ⟨h1, h2⟩
+    · have : sockReady (w.muxAt e) p ((w.truthfulSel e).sockR i) ((w.truthfulSel e).sockW i) = true := by
+        simp only [sockReady, World.truthfulSel, h, Bool.and_true, Bool.or_true]
+      rw [this]; simp only [↓reduceIte]; omega
+    · have : (muxWAsked w e && (w.truthfulSel e).muxW) = true := by
+        simp only [muxWAsked, World.truthfulSel, Bool.and_true, Bool.or_eq_true, List.any_eq_true]
+        right
+        exact ⟨f, hfm, by rw [hp]; exact h⟩
+      rw [this]; simp only [↓reduceIte]; omega
+    · have hr : (w.truthfulSel e).sockR i = true := by
+        simp only [World.truthfulSel, hi]
+        rcases h2 with h2 | h2
+        · cases hpe : (envAt e f).pending with
+          | nil => exact absurd hpe h2
+          | cons a l => simp
+        · simp [h2]
+      have : sockReady (w.muxAt e) p ((w.truthfulSel e).sockR i) ((w.truthfulSel e).sockW i) = true := by
+        simp only [sockReady, h1, hr, Bool.and_self, Bool.true_or]
+      rw [this]; simp only [↓reduceIte]; omega
+  have hmem : Step.cb e i fullIo ∈ roundTail w e k (w.truthfulSel e) (fun _ => fullIo) := by
+    unfold roundTail
+    apply List.mem_append_right
+    rw [List.mem_flatMap]
+    exact ⟨(i, f), mem_zip_range w.flows i f hi, List.mem_replicate.mpr ⟨Nat.ne_of_gt hcnt, rfl⟩⟩
+  exact hne (cb_fix_callback w e i fullIo hd f p hi hp (hall _ (List.mem_append_right _ hmem)))
+
+/-- The two directions together: when neither end's pass lowers the measure, the world is `Quiet`
+— and therefore complete (`C02_quiet_complete`). -/
+theorem C02_both_passes_idle_is_quiet (w : World) (kc ks : Nat) (hd : w.died = none)
+    (hkc : w.sm.out ≠ [] → 0 < kc) (hks : w.cm.out ≠ [] → 0 < ks)
+    (hfs : ∀ f ∈ w.flows, FlowSock f)
+    (hn : ∀ f ∈ w.flows, ∀ e p, handlerAt e f = some p → Noticed p)
+    (ht : w.cm.tooFull = false ∧ w.sm.tooFull = false)
+    (hc : worldMu (w.roundAuto .client kc fullIo) = worldMu w)
+    (hs : worldMu (w.roundAuto .server ks fullIo) = worldMu w) : Quiet w := by
+  obtain ⟨q1, h1⟩ := C02_pass_without_progress_is_quiet w .client kc hd hkc hfs
+    (fun f hf p hp => hn f hf .client p hp) ht.1 hc
+  obtain ⟨q2, h2⟩ := C02_pass_without_progress_is_quiet w .server ks hd hks hfs
+    (fun f hf p hp => hn f hf .server p hp) ht.2 hs
+  exact ⟨q2, q1, fun f hf => ⟨h1 f hf, h2 f hf⟩⟩
+
+
+/-- The pass on concrete reachable worlds: in the state of `demo2` (bytes buffered at the server,
+an end-of-stream to pass on) the server's pass lowers the measure; at the end of `demo3` (a whole
+connection run to the end) one pass per end drops the finished handlers, and after that neither
+end's pass changes the measure — the situation of `C02_both_passes_idle_is_quiet`. -/
+def demo3Rest : World := ((({} : World).run demo3).roundAuto .client 0 fullIo).roundAuto .server 0 fullIo
+
+example :
+    worldMu ((({} : World).run demo2).roundAuto .server 0 fullIo) < worldMu (({} : World).run demo2) ∧
+    worldMu demo3Rest < worldMu (({} : World).run demo3) ∧
+    worldMu (demo3Rest.roundAuto .client 0 fullIo) = worldMu demo3Rest ∧
+    worldMu (demo3Rest.roundAuto .server 0 fullIo) = worldMu demo3Rest ∧ demo3Rest.died = none := by
+  refine ⟨by decide +kernel, by decide +kernel, by decide +kernel, by decide +kernel, by decide +kernel⟩
 
 end Sshuttle.Tunnel
